@@ -113,7 +113,7 @@ class Sim:
             self.abort("virtual-time cap")
             raise SimAbort(self.abort_reason)
         # optional stall fault: one thread is skipped for a stretch
-        if self.stall_p and len(run) > 1:
+        if (self.stall_p or self._stall is not None) and len(run) > 1:
             if self._stall is None and self.tape.coin(self.stall_p):
                 self._stall = [self.tape.pick(run), 1 + self.tape.draw(30)]
                 self.stats["stalls"] += 1
